@@ -23,7 +23,7 @@ use texlang_stdlib::*;
 
 // ------------------------------------------------------------------ names
 
-const KNOWN: &[&str] = &["relax", "END", "x", "m", "a", "b", "c", "xa", "xb", "nx", "q", "t", "noexpand", "iftrue", "iffalse", "else", "fi", "or", "ifnum", "ifodd", "ifcase", "ifeof", "ifht", "ifhf", "myif", "myfi", "myelse", "myor", "hidfi", "capture", "capturetwo", "inject", "w", "n", "long", "outer", "def", "gdef", "let", "global", "par", "<eof>"];
+const KNOWN: &[&str] = &["relax", "END", "x", "m", "a", "b", "c", "xa", "xb", "nx", "q", "t", "sp", "e", "noexpand", "iftrue", "iffalse", "else", "fi", "or", "ifnum", "ifodd", "ifcase", "ifeof", "ifht", "ifhf", "myif", "myfi", "myelse", "myor", "hidfi", "capture", "capturetwo", "inject", "w", "n", "long", "outer", "def", "gdef", "let", "global", "par", "<eof>"];
 
 thread_local! {
     static EXTRA: RefCell<HashMap<String, &'static str>> = RefCell::new(HashMap::new());
